@@ -18,6 +18,7 @@ LEVEL_TEXT = (
     "time and per dimension, every observed Taylor-coefficient index, sum and average mode. The oracle builds the joint law over all "
     "output times from the terminal marginal and the backward conditionals in 50-digit arithmetic, adds the noise and evaluates the "
     "multivariate-normal log-density; the terminal-value loss is compared with the log-density under the terminal marginal."
+    ' Corners: the lowest noise level (1e-6) at the initial time of noise-free initial states, at a zero-covariance terminal marginal, or everywhere; up to 12 output times.'
 )
 LEVEL_NOTE = "Trusted: mpmath Cholesky log-density; dense embedding of the three factorisations (as in C08). Tolerance 1e-7 (hand-made sequences) / 1e-5 (solver posteriors) relative to |quadratic form| + |log det| + N d."
 RULE = (
